@@ -271,7 +271,17 @@ def main(argv=None) -> int:
         return 2
 
     # ---- C: correspondence + oracle ---------------------------------------
-    ctx = Ctx(prop, args.tier, seed)
+    # anchored source changed since the model was last validated against it: not a verdict, but look harder
+    from harness import anchors
+    repo_root = pathlib.Path(expect).parent
+    changed_files = anchors.changed(prop, repo_root)
+    if changed_files:
+        print(f'NOTE: anchored source differs from harness/anchors.lock.json ({", ".join(changed_files)}): '
+              f'correspondence and oracle run with 3x budget', file=sys.stderr)
+    ctx = Ctx(prop, args.tier, seed, mult=3 if changed_files else 1)
+    if changed_files:
+        ctx.notes.append('anchored source files changed since the model was validated: ' + ', '.join(changed_files)
+                         + ' (3x budget used)')
     try:
         if getattr(mod, 'DRIVER', None):
             ctx.driver = lean.Driver(mod.DRIVER)
